@@ -7,8 +7,6 @@ use openssl::bn::{BigNum, BigNumContext, BigNumContextRef, BigNumRef, MsbOption}
 use openssl::error::ErrorStack;
 
 #[cfg(feature = "serde")]
-use crate::serializable_crypto_primitive;
-#[cfg(feature = "serde")]
 use crate::serialization::{
     deserialize_crypto_primitive, serialize_crypto_primitive, SerializableCryptoPrimitive,
 };
@@ -413,8 +411,28 @@ impl SerializableCryptoPrimitive for BigNumber {
     }
 }
 
+// The binary form (BN_bn2bin) is the magnitude only: a negative number is written as decimal
+// text in every format (the reader accepts text and bytes alike).
 #[cfg(feature = "serde")]
-serializable_crypto_primitive!(BigNumber);
+impl Serialize for BigNumber {
+    fn serialize<S: Serializer>(&self, serializer: S) -> Result<S::Ok, S::Error> {
+        if !serializer.is_human_readable() && self.is_negative() {
+            serializer.serialize_newtype_struct(
+                "BigNumber",
+                &self.to_dec().map_err(serde::ser::Error::custom)?,
+            )
+        } else {
+            serialize_crypto_primitive(self, serializer)
+        }
+    }
+}
+
+#[cfg(feature = "serde")]
+impl<'a> Deserialize<'a> for BigNumber {
+    fn deserialize<D: Deserializer<'a>>(deserializer: D) -> Result<Self, D::Error> {
+        deserialize_crypto_primitive(deserializer)
+    }
+}
 
 impl From<ErrorStack> for ClError {
     fn from(err: ErrorStack) -> Self {
